@@ -8,7 +8,7 @@ From Coq Require Import List Arith.
 From PM Require Import Model.Data Model.Mark Model.Tree Model.Step Spec.Tokens
   Proofs.ReplaceValid Proofs.SliceSides Proofs.TokenBasics Proofs.ReplaceTokens Proofs.SliceShape Proofs.TokenLaws
   Proofs.AroundLaws Proofs.ContentBetween Proofs.StructProofs.
-From PM Require Import Model.Resolve Model.StructOps Proofs.HelperRanges Proofs.HelperSafe.
+From PM Require Import Model.Resolve Model.StructOps Proofs.HelperRanges Proofs.HelperSafe Model.DropPoint Proofs.SliceShape Proofs.DropPointProofs.
 Import ListNotations.
 
 Theorem C12_structure_only_step_keeps_leaves : forall s from to sl structure doc d',
@@ -131,3 +131,14 @@ Theorem C12_lift_target_never_crashes : forall s r,
   exists answer, lift_target s r = Ok answer.
 Proof. exact lift_target_never_crashes. Qed.
 Print Assumptions C12_lift_target_never_crashes.
+
+(* drop_point (modelled in Model/DropPoint.v, compared with the implementation on every run): on a valid document, for
+   every position and every slice that is as open on its left as it claims, it returns an answer, and the position it
+   answers lies within the document *)
+Theorem C12_drop_point_total_and_in_range : forall s doc pos sl,
+  check s doc = true -> is_elem doc -> pos <= frag_size s (node_content doc) ->
+  Shape s (sl_content sl) (sl_open_start sl) (sl_open_end sl) ->
+  (exists answer, drop_point s doc pos sl = Ok answer) /\
+  forall p, drop_point s doc pos sl = Ok (Some p) -> p <= frag_size s (node_content doc).
+Proof. exact drop_point_spec. Qed.
+Print Assumptions C12_drop_point_total_and_in_range.
